@@ -45,6 +45,9 @@ var impls = map[string]func(string) string{
 	"failover.accept": implFailoverAccept,
 	"swap.accept":     implSwapAccept,
 	"pool.accept":     implPoolAccept,
+	"lfs.read":        implLfsRead,
+	"lfs.clean":       implLfsClean,
+	"lfs.sort":        implLfsSort,
 }
 
 type replayFile struct {
